@@ -329,3 +329,47 @@ Proof.
       destruct (task_state_eq_dec (tg_state g n) TS_CANCELLED) as [B|B]; [rewrite A, B; reflexivity|].
       exfalso. apply M. apply Ex. right. auto.
 Qed.
+
+(* ---------- bridges: the documented forms are what the translated source computes ---------- *)
+Lemma existsb_map_id : forall (f : Z -> bool) l, existsb (fun b => b) (map f l) = existsb f l.
+Proof. intros f l; induction l as [|x l IH]; cbn; [reflexivity | rewrite IH; reflexivity]. Qed.
+Lemma forallb_map_id : forall (f : Z -> bool) l, forallb (fun b => b) (map f l) = forallb f l.
+Proof. intros f l; induction l as [|x l IH]; cbn; [reflexivity | rewrite IH; reflexivity]. Qed.
+
+Theorem doc_ready_bridge : forall g t,
+  is_ready_to_run (tg_terminal g t) (map (tg_complete g) (tg_parents g t)) (tg_state g t) = doc_ready g t.
+Proof.
+  intros g t. unfold is_ready_to_run, doc_ready. rewrite existsb_map_id, forallb_map_id. reflexivity.
+Qed.
+
+Theorem doc_releasable_bridge : forall g, tg_releasable g = doc_releasable g.
+Proof.
+  intros g. unfold tg_releasable, doc_releasable, releasable_state, releasable_parents_ok.
+  apply filter_ext. intro n. rewrite forallb_map_id. reflexivity.
+Qed.
+
+Theorem c18_releasable_check_accepts_model : forall g, tg_ok g = true -> c18_releasable_check (g, tg_releasable g) = true.
+Proof.
+  intros g Hok. unfold c18_releasable_check. rewrite doc_releasable_bridge. apply andb_true_iff. split.
+  - apply same_set_iff. tauto.
+  - apply znodup_NoDup. unfold doc_releasable. apply NoDup_filter. apply (wf_nodup _ (tg_ok_wf _ Hok)).
+Qed.
+
+(* a RuntimeError of notify_task_completion (non-conditional task) means that a child had started *)
+Theorem c18_children_err_check_accepts_model : forall g t fin draw g',
+  notify_completion g t fin draw = (g', Err 3) -> tg_conditional g t = false -> c18_children_err_check (g, t) = true.
+Proof.
+  intros g t fin draw g' H Hc. unfold notify_completion in H.
+  destruct (tg_ok g && zmem t (tg_nodes g)); cbn [negb] in H; [|discriminate].
+  destruct (tg_complete g t); cbn [negb] in H; [|discriminate].
+  rewrite Hc in H. unfold c18_children_err_check.
+  destruct (release_loop g (tg_children g t) []) as [r|e] eqn:E; [discriminate|].
+  assert (e = 3) by (inversion H; reflexivity). subst e. clear H.
+  revert E. generalize (@nil Z) as acc. induction (tg_children g t) as [|c cs IH]; intros acc E; cbn [release_loop] in E; [discriminate|].
+  cbn [existsb]. unfold notify_child_guard in E.
+  destruct (task_state_ltb TS_SCHEDULED (tg_state g c) && task_state_ltb (tg_state g c) TS_CANCELLED) eqn:G.
+  - apply orb_true_iff. left. destruct (tg_state g c); cbn in G; try discriminate; reflexivity.
+  - apply orb_true_iff. right. destruct (task_state_eqb (tg_state g c) TS_CANCELLED).
+    + eapply IH; eauto.
+    + destruct (notify_releases (tg_terminal g c) (map (tg_complete g) (tg_parents g c))); eapply IH; eauto.
+Qed.
